@@ -511,7 +511,18 @@ func (d *vc16Daemon) serve(w http.ResponseWriter, r *http.Request, k vc16Call, s
 		if err != nil {
 			panic(err)
 		}
-		switch st.Var % 3 {
+		switch st.Var % 5 {
+		case 3, 4: // a 200 whose chunked body is cut at a message boundary: whole progress objects (3) or none (4), no final chunk
+			buf.WriteString("HTTP/1.1 200 OK\r\nContent-Type: application/json\r\nTransfer-Encoding: chunked\r\nTrailer: X-Stream-Error\r\n\r\n")
+			if st.Var%5 == 3 {
+				for _, part := range []string{`{"Progress":1}` + "\n", `{"Progress":2}` + "\n"} {
+					if !isAdd {
+						part = "\n"
+					}
+					fmt.Fprintf(buf, "%x\r\n%s\r\n", len(part), part)
+				}
+			}
+			buf.Flush()
 		case 1: // a 200 whose chunked body is cut in the middle
 			buf.WriteString("HTTP/1.1 200 OK\r\nContent-Type: application/json\r\nTransfer-Encoding: chunked\r\n\r\n")
 			part := `{"Progress":1}` + "\n" + `{"Pro`
